@@ -325,5 +325,8 @@ class Interp:
                     env[u(st.value.func.value)] = self.eval(st.value, env)
             elif isinstance(st, ast.Pass):
                 return
+            elif isinstance(st, ast.With) and all(isinstance(i_.context_expr, ast.Call) and call_name(i_.context_expr) in (
+                    "torch.no_grad", "torch.enable_grad", "torch.inference_mode") and i_.optional_vars is None for i_ in st.items):
+                self.block(st.body, env)  # (gradient modes do not change values)
             else:
                 raise NotEvaluable(type(st).__name__)
